@@ -7,6 +7,8 @@
    deserialize_value calls). *)
 From Model Require Import Base Utf8 Ser SerCost SerHs.
 From Proofs Require Import SerDecP SerCostP SerSizeP C14P.
+From Model Require Registry.
+From Proofs Require RegistryP.
 Open Scope Z_scope.
 
 (* 1. totality: for every byte string, registry, key-parser behaviour and number of frames the
@@ -172,6 +174,15 @@ Theorem C14_challenge_total : forall fc pk reg tok fuel expected data,
   end.
 Proof. exact challenge_total_proof. Qed.
 Print Assumptions C14_challenge_total.
+
+(* ---------- "registered types": the decode table only ever holds classes whose class statement succeeded
+   (Model/Registry.v, the metaclasses of serializable.py): a refused definition (type id or name already in use)
+   leaves the decode table and the name table exactly as they were, so its half-built class can never be the
+   result of decoding hostile bytes; see also C13_registry_bijection *)
+Theorem C14_refused_class_not_decodable : forall s o s' t code, Registry.rstep s o = (s', (t, code)) -> code <> 0 ->
+  Registry.r_reg s' = Registry.r_reg s /\ Registry.r_names s' = Registry.r_names s.
+Proof. exact RegistryP.refused_leaves_tables. Qed.
+Print Assumptions C14_refused_class_not_decodable.
 
 (* ---------- non-vacuity *)
 Definition fc0 : fconv := {| to32 := fun z => SOk z; of32 := fun z => z |}.
